@@ -211,6 +211,26 @@ pub fn calls(inp: &Input) -> Vec<(String, Box<dyn Fn() -> u64 + Send + Sync + '_
             }
             h
         })));
+        if weighted && g.specs.directed {
+            v.push(("closeness, KeepLast replacement of one weight in place, closeness again".into(), Box::new(move || {
+                let mut specs = g.specs.clone();
+                specs.edge_dedupe_strategy = graphrs::EdgeDedupeStrategy::KeepLast;
+                let mut h: Graph<i32, ()> = Graph::new(specs);
+                for nd in g.get_all_nodes() {
+                    h.add_node(nd.clone());
+                }
+                let mut es: Vec<(i32, i32, f64)> = g.get_all_edges().iter().map(|e| (e.u, e.v, e.weight)).collect();
+                es.sort_by(|a, b| (a.0, a.1).cmp(&(b.0, b.1)));
+                for &(u, v2, w) in &es {
+                    h.add_edge(Arc::new(Edge { u, v: v2, weight: w, attributes: None })).expect("copy");
+                }
+                let first = digest_map(&closeness::closeness_centrality(&h, true, true).expect("closeness"));
+                let (u, v2, w) = es[es.len() / 2];
+                h.add_edge(Arc::new(Edge { u, v: v2, weight: w + 7.0, attributes: None })).expect("replace");
+                let second = digest_map(&closeness::closeness_centrality(&h, true, true).expect("closeness"));
+                first ^ second.rotate_left(17)
+            })));
+        }
         for flag in [false, true] {
             v.push((format!("betweenness_centrality(w={weighted},normalized={flag})"), Box::new(move || digest_map(&betweenness::betweenness_centrality(g, weighted, flag).expect("betweenness")))));
             v.push((format!("closeness_centrality(w={weighted},wf={flag})"), Box::new(move || digest_map(&closeness::closeness_centrality(g, weighted, flag).expect("closeness")))));
